@@ -230,7 +230,7 @@ def check_C10(chk):
             src = f"@{r.randint(1, 2**40)},{n},{cls}" if n > 1500 else (datav(r, n, cls) if n else ('null' if ci % 2 else '-'))
             lines.append(f"hash id=h{n}{cls} m={src} pl={pl} off={off},{(off + 3) % 8} pf={r.choice([0, 255, 165])}")
     groups = chunks(lines, 12)
-    cfgs = ['prod', 'alt3', 'dbg', 'shared', 'portable'] + (['alt', 'o2', 'os', 'alt0'] if chk.thorough else [])
+    cfgs = ['prod', 'alt3', 'dbg', 'shared', 'portable', 'os', 'uchar'] + (['alt', 'o2', 'alt0'] if chk.thorough else [])
     execs, plans, seen = [], [], set()
     for cfg in cfgs:
         exe2 = exe if cfg == 'prod' else build_driver(chk.wd, cfg)
